@@ -15,6 +15,7 @@ int main(){
         auto t=split(line); string r="bad-op";
         auto idx=[&](const string&s,int&v){ try{ size_t k; v=stoi(s,&k); return k==s.size()&&v>=0; }catch(...){return false;} };
         if(t.empty()){ }
+        else if(t[0]=="recreate"&&t.size()==3){ int n,bw; if(idx(t[1],n)&&idx(t[2],bw)&&n>0){ L->Create(n,bw); r="ok"; } }   // Create() again on the SAME object
         else if(t[0]=="create"&&t.size()==3){ int n,bw; if(idx(t[1],n)&&idx(t[2],bw)){ L.reset(new CBigLinProb); if(n>0) L->Create(n,bw); else {L->n=0;} r="ok"; } }
         else if(!L){ }
         else if((t[0]=="put"||t[0]=="addto")&&t.size()==4){ double v;int p,q; if(tok2d(t[1],v)&&idx(t[2],p)&&idx(t[3],q)&&p<L->n&&q<L->n){ if(t[0]=="put")L->Put(v,p,q); else L->AddTo(v,p,q); r="ok";} }
